@@ -666,10 +666,11 @@ class Lexer(object):
     identifier = identifier_start + identifier_part
 
     # get/set introduce an accessor when a property name follows; any amount
-    # of white space and comments may separate the two
+    # of white space and comments may separate the two (a line comment runs
+    # up to the line terminator, it must not be cut short by backtracking)
     accessor_gap = (
         r'(?:\s|/\*[^*]*\*+(?:[^/*][^*]*\*+)*/'
-        r'|//[^\r\n\u2028\u2029]*)+'
+        r'|//[^\r\n\u2028\u2029]*(?=[\r\n\u2028\u2029]))+'
     )
 
     getprop = r'get' + r'(?=' + accessor_gap + identifier + r')'
